@@ -389,6 +389,66 @@ theorem resolveComment_notFound (bugs : List BugC) (pre : List Char) (hwf : WF b
   · rename_i y h; simp [h]
   · rename_i h1 h2; simp only [reduceCtorEq, false_iff]; exact h1
 
+/-! ## the command-line front of prefix resolution (`commands/select.Resolve`) -/
+
+/-- `select_unique`: a first argument that is a prefix of exactly one id names that entity, and is
+consumed, whatever is selected -/
+theorem select_unique (ids : List (List Char)) (sel : Option (List Char)) (a x : List Char) (rest : List (List Char))
+    (h : resolve ids a = .found x) : selectResolve ids sel (a :: rest) = .entity x rest := by
+  simp only [selectResolve, h]
+
+/-- `select_multiple`: a first argument that is a prefix of several ids gives the multiple-match
+error listing exactly these ids — the selection is not consulted -/
+theorem select_multiple (ids : List (List Char)) (sel : Option (List Char)) (a : List Char) (rest : List (List Char))
+    (h : 2 ≤ (ids.filter (hasPrefix a)).length) :
+    selectResolve ids sel (a :: rest) = .multiple (ids.filter (hasPrefix a)) := by
+  have : resolve ids a = .multiple (ids.filter (hasPrefix a)) := (resolve_multiple_iff ids a _).2 ⟨rfl, h⟩
+  simp only [selectResolve, this]
+
+/-- `select_entity_cases`: the answer is an entity only in two ways: the first argument identifies it
+(and is consumed), or the first argument matches no id at all and the entity is the selected one
+(and the arguments are left alone) -/
+theorem select_entity_cases (ids : List (List Char)) (sel : Option (List Char)) (a x : List Char)
+    (rest args' : List (List Char)) (h : selectResolve ids sel (a :: rest) = .entity x args') :
+    (resolve ids a = .found x ∧ args' = rest) ∨
+    (resolve ids a = .notFound ∧ sel = some x ∧ x ∈ ids ∧ args' = a :: rest) := by
+  simp only [selectResolve] at h
+  split at h
+  · rename_i y hy
+    simp only [Sel.entity.injEq] at h
+    exact Or.inl ⟨by rw [hy, h.1], h.2.symm⟩
+  · cases h
+  · rename_i hn
+    refine Or.inr ⟨hn, ?_⟩
+    unfold selectFallback at h
+    split at h
+    · cases h
+    · rename_i s
+      split at h
+      · rename_i hs
+        simp only [Sel.entity.injEq] at h
+        obtain ⟨rfl, rfl⟩ := h
+        exact ⟨rfl, hs, rfl⟩
+      · cases h
+
+/-- a selection pointing at an entity that does not exist is never answered with an entity -/
+theorem select_stale (ids : List (List Char)) (s : List Char) (args : List (List Char)) (hs : s ∉ ids)
+    (x : List Char) (args' : List (List Char)) (h : selectResolve ids (some s) args = .entity x args') : x ∈ ids := by
+  cases args with
+  | nil => simp [selectResolve, selectFallback, hs] at h
+  | cons a rest =>
+    rcases select_entity_cases ids (some s) a x rest args' h with ⟨hf, _⟩ | ⟨_, _, hx, _⟩
+    · exact ((resolve_spec ids a).1 x hf).1
+    · exact hx
+
+example : selectResolve ["abc".toList, "abd".toList, "b12".toList] (some "b12".toList) ["ab".toList, "label".toList]
+    = .multiple ["abc".toList, "abd".toList] := by decide
+example : selectResolve ["abc".toList, "abd".toList, "b12".toList] (some "b12".toList) ["bug".toList, "label".toList]
+    = .entity "b12".toList ["bug".toList, "label".toList] := by decide
+example : selectResolve ["abc".toList, "abd".toList, "b12".toList] (some "b12".toList) ["abc".toList, "label".toList]
+    = .entity "abc".toList ["label".toList] := by decide
+example : selectResolve ["abc".toList] (some "fff".toList) ["zz".toList] = .noValidId true := by decide
+
 /-! ## regenerated obligation: the masks in the source are the model's mask -/
 
 theorem gen_masks_are_model :
